@@ -225,6 +225,31 @@ def tiny_geometry_case(src, asan, idx, seed, tier):
     return {"kind": "image", "base": "ext2 1M, 16 inodes", "operators": ["superblock: %s" % which], "case_index": idx}, bad, nrun
 
 
+def huge_size_case(src, asan, idx, seed, tier):
+    """a regular file whose i_size says 2^55 (with and without mapped blocks): copying it out stops at the first write the
+    output refuses (the output is capped at 64 MiB), it does not go on for the remaining petabytes"""
+    env = e2v.tool_env(src)
+    name, opts, size = [c for c in corrupt.IMG_CONFIGS if c[0] == ("ext4_1k" if idx % 2 == 0 else "ext3")][0]
+    base = corrupt.build_image(src, WORK, name, opts, size, 1)
+    img = os.path.join(WORK, "huge_%d.img" % idx)
+    aux = os.path.join(WORK, "huge_aux_%d" % idx)
+    shutil.copy(base, img)
+    e2v.sh([os.path.join(src, "debugfs/debugfs"), "-w", "-f", "-", img], input=b"sif /d1/plain size 0x00be000000000000\nwrite /dev/null /d1/hole\nsif /d1/hole size 0x00be000000000000\n", env=env, timeout=60)
+    bad, nrun = [], 0
+    for label, cmd, writes in [x for x in invocations(asan, img, aux) if x[0] in ("debugfs rdump", "debugfs cat", "e2fsck -fn", "debugfs stat")]:
+        subprocess.run(["rm", "-rf", aux])
+        os.makedirs(aux, exist_ok=True)
+        if label == "debugfs cat":
+            cmd = ["/bin/bash", "-c", 'trap "" XFSZ; ulimit -f 65536; exec "$@" > %s/cat.out' % aux, "sh"] + cmd
+        rc, why = run_san(cmd, env)
+        nrun += 1
+        if why:
+            bad.append({"invocation": label, "why": why})
+    subprocess.run(["rm", "-rf", aux])
+    os.unlink(img)
+    return {"kind": "image", "base": name, "operators": ["/d1/plain and an empty /d1/hole: i_size := 0x00be000000000000"], "case_index": idx}, bad, nrun
+
+
 def run_san_input(cmd, env, data):
     e = dict(env)
     e["ASAN_OPTIONS"] = "detect_leaks=0:abort_on_error=0:allocator_may_return_null=1:max_allocation_size_mb=2048"
@@ -644,6 +669,7 @@ def run(res, replay=None):
         o2 = list(ex.map(lambda i: journal_case(src, asan, i, seed, tier), range(n_j)))
         o3 = list(ex.map(lambda i: aux_case(src, asan, i, seed, tier), range(n_a)))
         o3 += list(ex.map(lambda i: tiny_geometry_case(src, asan, i, seed, tier), range(3)))
+        o3 += list(ex.map(lambda i: huge_size_case(src, asan, i, seed, tier), range(2)))
     bad = []
     runs = 0
     for recipe, b, nrun in o1 + o2 + o3:
